@@ -56,7 +56,7 @@ theorem no_creation_while_paused (sp : Spec) (w : World) (ev : Event)
           · split
             · rfl
             · split
-              · rfl
+              · unfold ids; rw [(checkAffected_tasks sp _ t).1]
               · split
                 · rfl
                 · simp [ids, setTask_ids]
@@ -154,7 +154,7 @@ theorem paused_stays_paused (sp : Spec) (w : World) (ev : Event) (hp : w.wf = .P
           · split
             · exact hp
             · split
-              · exact hp
+              · rw [(checkAffected_tasks sp _ t).2]; exact hp
               · split <;> exact hp
       | rpcResult t ok =>
         simp only
